@@ -508,6 +508,7 @@ class Module:
     def build(self):
         relpath = self.relpath
         self.funcs = {}
+        self.func_aliases = {}
         self.classes = {}
         self.consts = {}
         self.imports = {}   # local name -> (module basename or dotted, original name or None)
@@ -522,6 +523,14 @@ class Module:
             elif isinstance(st, ast.Assign) and len(st.targets) == 1 and \
                     isinstance(st.targets[0], ast.Name):
                 tgt = st.targets[0].id
+                # `x = lru_cache(...)(f)` / `x = cache(f)`: x is f behind a memoising wrapper — calls of x resolve to f
+                v_ = st.value
+                if isinstance(v_, ast.Call) and len(v_.args) == 1 and isinstance(v_.args[0], ast.Name) and \
+                        v_.args[0].id in self.funcs:
+                    w_ = v_.func.func if isinstance(v_.func, ast.Call) else v_.func
+                    wn_ = ast.unparse(w_)
+                    if wn_ in ('lru_cache', 'cache', 'functools.lru_cache', 'functools.cache'):
+                        self.func_aliases[tgt] = v_.args[0].id
                 try:
                     self.consts[tgt] = const_eval(st.value, self.consts)
                 except ValueError:
@@ -701,6 +710,8 @@ class Repo:
         ClassInfo) / ('module', Module) / ('ext', dotted) / None."""
         if name in module.funcs:
             return ('func', module.funcs[name])
+        if name in getattr(module, 'func_aliases', {}):
+            return ('func', module.funcs[module.func_aliases[name]])
         if name in module.classes:
             return ('class', module.classes[name])
         if name in module.imports:
